@@ -641,24 +641,31 @@ class Item:
             self.rewrite(be, semi + 1, tail, "R3-find_map")
 
     def r3_zip_all(self, fn, k):
-        """tail expression `A.zip(B).all(|(g, c)| BODY)` over two lists A, B (place expressions)  ==>  lock-step index loop
-        with early exit: { let mut vx_all = true; let mut vx_i = 0; while vx_i < A.len() && vx_i < B.len() { let g = &A[vx_i];
-        let c = &B[vx_i]; let vx_b = BODY; if !vx_b { vx_all = false; break; } vx_i += 1; } vx_all }   (Zip stops at the
-        shorter list; all() stops at the first false; BODY stays in place)"""
+        """tail expression `A.zip(B).all(|(g, c)| BODY)` over two lists  ==>  lock-step index loop with early exit:
+        { let vx_za = A; let vx_zb = B; let mut vx_all = true; let mut vx_i = 0; while vx_i < vx_za.len() && vx_i < vx_zb.len()
+        { let g = &vx_za[vx_i]; let c = &vx_zb[vx_i]; let vx_b = BODY; if !vx_b { vx_all = false; break; } vx_i += 1; } vx_all }
+        (Zip stops at the shorter list; all() stops at the first false; A, B and BODY stay in place)"""
         k0, _, bo, end, _ = self.fn_span(fn)
-        hits = list(re.finditer(r"([A-Za-z_][A-Za-z0-9_]*)\s*\.\s*zip\s*\(\s*([A-Za-z_][A-Za-z0-9_]*)\s*\)\s*\.\s*all\s*\(", self.m[bo:end]))
+        hits = list(re.finditer(r"\.\s*zip\s*\(", self.m[bo:end]))
         if len(hits) < k:
             raise Undecided("LOST-ANCHOR: R3 zip-all #%d in fn %s of %s" % (k, fn, self.where()))
         h = hits[k - 1]
-        a_, b_ = h.group(1), h.group(2)
-        par = bo + h.end() - 1
+        zopen = bo + h.end() - 1
+        zclose = match_brace(self.m, zopen, "(", ")")
+        ma = re.match(r"\s*\.\s*all\s*\(", self.m[zclose + 1:])
+        if not ma:
+            raise Undecided("R3 zip-all: `.all(` expected after zip(..) at %s:%d" % (self.relpath, self.line_of(zclose)))
+        par = zclose + 1 + ma.end() - 1
         close = match_brace(self.m, par, "(", ")")
         mo = re.match(r"\(\s*\|\s*\(\s*([A-Za-z_][A-Za-z0-9_]*)\s*,\s*([A-Za-z_][A-Za-z0-9_]*)\s*\)\s*\|\s*", self.text[par:close])
         if not mo:
             raise Undecided("R3 zip-all: closure shape not recognised at %s:%d" % (self.relpath, self.line_of(par)))
         g_, c_ = mo.group(1), mo.group(2)
         bs = par + mo.end()
-        self.rewrite(bo + h.start(), bs, "{ let mut vx_all = true;\n  let mut vx_i: usize = 0;\n  while vx_i < %s.len() && vx_i < %s.len()\n  /*@loop*/\n  {\n    let %s = &%s[vx_i]; let %s = &%s[vx_i];/*@body*/\n    let vx_b = " % (a_, b_, g_, a_, c_, b_), "R3-zip-all")
+        a0 = self._stmt_start(bo + h.start())
+        self.rewrite(a0, a0, "{ let vx_za = ", "R3-zip-all")
+        self.rewrite(bo + h.start(), zopen + 1, ";\n  let vx_zb = ", "R3-zip-all")
+        self.rewrite(zclose, bs, ";\n  let mut vx_all = true;\n  let mut vx_i: usize = 0;/*@pre*/\n  while vx_i < vx_za.len() && vx_i < vx_zb.len()\n  /*@loop*/\n  {\n    let %s = &vx_za[vx_i]; let %s = &vx_zb[vx_i];/*@body*/\n    let vx_b = " % (g_, c_), "R3-zip-all")
         self.rewrite(close, close + 1, ";\n    if !vx_b { vx_all = false; break; }\n    vx_i = vx_i + 1;\n  }\n  vx_all }", "R3-zip-all")
 
     def r3_map_collect(self, fn, k):
